@@ -534,9 +534,11 @@ def bindAll (ctx : Syms) : List String → List SExpr → Syms
   | _, _ => ctx
 
 mutual
-/-- `_always_returns`: every path through the statement ends in `return <expr>` -/
+/-- `_always_returns`: every path through the statement ends in a `return` (`isinstance(node, ast.Return)`: a bare
+`return` counts; `_handle_fn_body` then refuses it with "Return value cannot be None") -/
 def stmtReturns : PyStmt → Bool
   | .ret _ => true
+  | .retNone => true
   | .ifs _ t e => bodyReturns t && bodyReturns e
   | _ => false
 def bodyReturns : List PyStmt → Bool
